@@ -111,31 +111,8 @@ def offs (avail col len : Int) : Align → Int
   | .center => col + (avail - len) / 2
   | .right => col + (avail - len)
 
-theorem offs_bounds (avail col len : Int) (a : Align) (h0 : 0 ≤ len) (h1 : len ≤ avail) :
+theorem offs_bounds (avail col len : Int) (a : Align) (_h0 : 0 ≤ len) (h1 : len ≤ avail) :
     col ≤ offs avail col len a ∧ offs avail col len a + len ≤ col + avail := by
-  cases a <;> simp only [offs] <;> omega
-
-theorem fw_offset_eq (cols col len : Int) (a : Align) (h0 : 0 ≤ len) (h1 : len ≤ cols - col) :
-    (if (match a with
-          | .left => col
-          | .center => col + Int.tdiv (if cols - col - len < 0 then 0 else cols - col - len) 2
-          | .right => col + (if cols - col - len < 0 then 0 else cols - col - len)) + len > cols then
-        (if cols - len < col then col else cols - len)
-      else (match a with
-          | .left => col
-          | .center => col + Int.tdiv (if cols - col - len < 0 then 0 else cols - col - len) 2
-          | .right => col + (if cols - col - len < 0 then 0 else cols - col - len)))
-      = offs (cols - col) col len a := by
-  have hr : ¬ cols - col - len < 0 := by omega
-  rw [if_neg hr, Int.tdiv_eq_ediv_of_nonneg (by omega)]
-  cases a <;> simp only [offs] <;> split <;> omega
-
-theorem host_offset_eq (cols col len : Int) (a : Align) (h0 : 0 ≤ len) (h1 : len ≤ cols - col) :
-    max col (min (cols - len) (match a with
-          | .left => col
-          | .right => col + (cols - col - len)
-          | .center => col + (cols - col - len) / 2))
-      = offs (cols - col) col len a := by
   cases a <;> simp only [offs] <;> omega
 
 theorem getD_clearRow (g : Grid) (cols row : Int) (r : Nat) (hr : Int.ofNat r ≠ row) :
@@ -448,5 +425,147 @@ theorem progress_prints (g : Grid) (cols : Nat) (row value maxValue width : Int)
       show (0:Int) + Int.ofNat (cont (Int.ofNat cols) _).length ≤ Int.ofNat cols
       rw [Int.zero_add]
       exact cont_length_le _ _ (by omega)
+
+/-! ## progress bar -/
+
+/-- the value after both clamps -/
+def clampV (v mx : Int) : Int := if v < 0 then 0 else if v > mx then mx else v
+
+theorem clampV_bounds (v mx : Int) (hmx : 0 < mx) : 0 ≤ clampV v mx ∧ clampV v mx ≤ mx := by
+  unfold clampV; split_ifs <;> omega
+
+theorem clampV_mono (v1 v2 mx : Int) (hmx : 0 < mx) (h : v1 ≤ v2) : clampV v1 mx ≤ clampV v2 mx := by
+  unfold clampV; split_ifs <;> omega
+
+theorem fw_filled_eq (cols v mx w : Int) (hmx : 0 < mx) (hw : 1 ≤ w ∧ w ≤ cols) :
+    Fw.progressFilled cols v mx w = (clampV v mx * w / mx, w) := by
+  have hb := clampV_bounds v mx hmx
+  have hv : (if (if v < 0 then 0 else v) > mx then mx else (if v < 0 then 0 else v)) = clampV v mx := by
+    unfold clampV; split_ifs <;> omega
+  have h1 : ¬ (w ≤ 0 ∨ w > cols) := by omega
+  have h2 : ¬ mx ≤ 0 := by omega
+  unfold Fw.progressFilled
+  simp only [if_neg h1, if_neg h2, hv]
+  have hnn : 0 ≤ clampV v mx * w := Int.mul_nonneg hb.1 (by omega)
+  rw [Int.tdiv_eq_ediv_of_nonneg hnn]
+  have h3 : ¬ clampV v mx * w / mx < 0 := Int.not_lt.mpr (Int.ediv_nonneg hnn (by omega))
+  have h4 : ¬ clampV v mx * w / mx > w := by
+    have : clampV v mx * w / mx ≤ mx * w / mx :=
+      Int.ediv_le_ediv hmx (Int.mul_le_mul_of_nonneg_right hb.2 (by omega))
+    rw [Int.mul_ediv_cancel_left _ (by omega : mx ≠ 0)] at this
+    omega
+  simp only [if_neg h3, if_neg h4]
+
+theorem fw_progress_laws' (cols v1 v2 mx w : Int) (hmx : 0 < mx) (hw : 1 ≤ w ∧ w ≤ cols) (h12 : v1 ≤ v2) :
+    (Fw.progressFilled cols v1 mx w).1 ≤ (Fw.progressFilled cols v2 mx w).1 ∧
+    (v1 ≤ 0 → (Fw.progressFilled cols v1 mx w).1 = 0) ∧
+    (mx ≤ v2 → (Fw.progressFilled cols v2 mx w).1 = w) ∧
+    (Fw.progressFilled cols v1 mx w).2 = w := by
+  rw [fw_filled_eq cols v1 mx w hmx hw, fw_filled_eq cols v2 mx w hmx hw]
+  refine ⟨?_, ?_, ?_, rfl⟩
+  · exact Int.ediv_le_ediv hmx (Int.mul_le_mul_of_nonneg_right (clampV_mono v1 v2 mx hmx h12) (by omega))
+  · intro h
+    have : clampV v1 mx = 0 := by unfold clampV; split_ifs <;> omega
+    simp only [this, Int.zero_mul, Int.zero_ediv]
+  · intro h
+    have : clampV v2 mx = mx := by unfold clampV; split_ifs <;> omega
+    simp only [this]
+    exact Int.mul_ediv_cancel_left _ (by omega)
+
+variable {K : Type} [Field K] [LinearOrder K] [IsStrictOrderedRing K] [FloorRing K]
+
+theorem roundHEK_intCast (n : Int) : roundHEK (n : K) = n := by
+  simp [roundHEK]
+
+theorem floor_le_roundHEK (x : K) : ⌊x⌋ ≤ roundHEK x := by
+  unfold roundHEK; simp only []; split_ifs <;> omega
+
+theorem roundHEK_le_floor_add_one (x : K) : roundHEK x ≤ ⌊x⌋ + 1 := by
+  unfold roundHEK; simp only []; split_ifs <;> omega
+
+theorem roundHEK_mono {x y : K} (h : x ≤ y) : roundHEK x ≤ roundHEK y := by
+  have hfg : ⌊x⌋ ≤ ⌊y⌋ := Int.floor_le_floor h
+  rcases lt_or_eq_of_le hfg with hlt | heq
+  · calc roundHEK x ≤ ⌊x⌋ + 1 := roundHEK_le_floor_add_one x
+      _ ≤ ⌊y⌋ := hlt
+      _ ≤ roundHEK y := floor_le_roundHEK y
+  · have hxy : x - (⌊y⌋ : K) ≤ y - (⌊y⌋ : K) := by linarith
+    unfold roundHEK; simp only []; rw [heq]
+    split_ifs <;> first | omega | (exfalso; linarith)
+
+theorem floor_intCast_div (a b : Int) (hb : 0 < b) : ⌊((a : Int) : K) / ((b : Int) : K)⌋ = a / b := by
+  rw [Int.floor_div_cast_of_nonneg (Int.le_of_lt hb), Int.floor_intCast]
+
+theorem host_filled_eq (cols : Nat) (v mx w : Int) (hmx : 0 < mx) (hw : 1 ≤ w ∧ w ≤ Int.ofNat cols) :
+    Host.progressFilled (α := K) cols v mx (some w) =
+      (roundHEK (((clampV v mx * w : Int) : K) / ((mx : Int) : K)), w) := by
+  have hmxK : (0 : K) < (mx : K) := by exact_mod_cast hmx
+  have htw : max 1 (min (Int.ofNat cols) w) = w := by omega
+  have h2 : ¬ mx ≤ 0 := by omega
+  unfold Host.progressFilled
+  simp only [htw, if_neg h2, ofInt_eq, roundHE_eq, Int.cast_zero, Int.cast_one]
+  congr 2
+  unfold clampV
+  by_cases hv0 : v < 0
+  · have : (v : K) / (mx : K) < 0 := div_neg_of_neg_of_pos (by exact_mod_cast hv0) hmxK
+    rw [if_pos this, if_pos hv0]
+    simp
+  · have hv0' : (0 : K) ≤ (v : K) := by exact_mod_cast Int.not_lt.mp hv0
+    have : ¬ (v : K) / (mx : K) < 0 := not_lt.mpr (div_nonneg hv0' hmxK.le)
+    rw [if_neg this, if_neg hv0]
+    by_cases hv1 : v > mx
+    · have : 1 < (v : K) / (mx : K) := by
+        rw [one_lt_div hmxK]; exact_mod_cast hv1
+      rw [if_pos this, if_pos hv1]
+      push_cast
+      field_simp
+    · have : ¬ 1 < (v : K) / (mx : K) := by
+        rw [one_lt_div hmxK, not_lt]; exact_mod_cast Int.not_lt.mp hv1
+      rw [if_neg this, if_neg hv1]
+      push_cast
+      ring
+
+theorem host_progress_laws' (cols : Nat) (v1 v2 mx w : Int) (hmx : 0 < mx) (hw : 1 ≤ w ∧ w ≤ Int.ofNat cols)
+    (h12 : v1 ≤ v2) :
+    (Host.progressFilled (α := K) cols v1 mx (some w)).1 ≤ (Host.progressFilled (α := K) cols v2 mx (some w)).1 ∧
+    (v1 ≤ 0 → (Host.progressFilled (α := K) cols v1 mx (some w)).1 = 0) ∧
+    (mx ≤ v2 → (Host.progressFilled (α := K) cols v2 mx (some w)).1 = w) ∧
+    (Host.progressFilled (α := K) cols v1 mx (some w)).2 = w := by
+  have hmxK : (0 : K) < (mx : K) := by exact_mod_cast hmx
+  rw [host_filled_eq cols v1 mx w hmx hw, host_filled_eq cols v2 mx w hmx hw]
+  refine ⟨?_, ?_, ?_, rfl⟩
+  · apply roundHEK_mono
+    apply div_le_div_of_nonneg_right _ hmxK.le
+    exact Int.cast_le.mpr (Int.mul_le_mul_of_nonneg_right (clampV_mono v1 v2 mx hmx h12) (by omega))
+  · intro h
+    have : clampV v1 mx = 0 := by unfold clampV; split_ifs <;> omega
+    have h0 := roundHEK_intCast (K := K) 0
+    simp only [this, Int.zero_mul, Int.cast_zero, zero_div] at h0 ⊢
+    exact h0
+  · intro h
+    have : clampV v2 mx = mx := by unfold clampV; split_ifs <;> omega
+    have e : (((mx * w : Int) : K)) / ((mx : Int) : K) = ((w : Int) : K) := by
+      push_cast; field_simp
+    simp only [this, e]
+    exact roundHEK_intCast w
+
+theorem progress_close' (cols : Nat) (v mx w : Int) (hmx : 0 < mx) (hw : 1 ≤ w ∧ w ≤ Int.ofNat cols) :
+    ((Fw.progressFilled (Int.ofNat cols) v mx w).1 - (Host.progressFilled (α := K) cols v mx (some w)).1).natAbs ≤ 1 ∧
+    ((0 ≤ v ∧ v ≤ mx ∧ (v * w) % mx = 0) →
+      (Fw.progressFilled (Int.ofNat cols) v mx w).1 = (Host.progressFilled (α := K) cols v mx (some w)).1) := by
+  have hmxK : (0 : K) < (mx : K) := by exact_mod_cast hmx
+  rw [host_filled_eq cols v mx w hmx hw, fw_filled_eq (Int.ofNat cols) v mx w hmx hw]
+  have hf := floor_intCast_div (K := K) (clampV v mx * w) mx hmx
+  have h1 := floor_le_roundHEK (((clampV v mx * w : Int) : K) / ((mx : Int) : K))
+  have h2 := roundHEK_le_floor_add_one (((clampV v mx * w : Int) : K) / ((mx : Int) : K))
+  rw [hf] at h1 h2
+  refine ⟨by simp only []; omega, ?_⟩
+  rintro ⟨hv0, hv1, hmod⟩
+  have hc : clampV v mx = v := by unfold clampV; split_ifs <;> omega
+  have hd : v * w / mx * mx = v * w := Int.ediv_mul_cancel (Int.dvd_of_emod_eq_zero hmod)
+  have e : (((v * w : Int) : K)) / ((mx : Int) : K) = (((v * w / mx : Int)) : K) := by
+    rw [div_eq_iff (ne_of_gt hmxK), ← Int.cast_mul, hd]
+  simp only [hc, e]
+  exact (roundHEK_intCast _).symm
 
 end Reduino.Lemmas.C17
